@@ -444,7 +444,11 @@ def run(prop, tier, seed, replay=None, finish=True):
     sample = [l for l in hout[:: max(1, len(hout) // 12)]][:12]
     V.coverage = {
         "obligations": len(mine) + len(prop_thms) + 2,
-        "discharged": len(mine) - len(failing_mine) + prop_ok + (0 if forb else 1) + (0 if ax_bad else 1),
+        # a theorem counts as discharged only if its module compiled (a failing theorem leaves the others of its chunk unchecked)
+        "discharged": sum(len(v) for v in by_chunk.values()) - len([n for n in ax_bad if n.startswith("Givaro.Gen.")]) + prop_ok
+                      + (0 if forb else 1) + (0 if ax_bad else 1),
+        "unchecked_because_module_failed": sorted(f["key"] for f in mine if f.get("translated", True)
+                                                  and meta["thm_chunk"].get(f["key"]) in bad_chunks and (f["key"] + "_exact") not in failing_mine),
         "property_theorems": prop_thms,
         "checker_cmd": "python3 translate/gen_integer.py && lake build GivaroModel.Generated.IntegerThms (one theorem per overload, regenerated from /repo) + #print axioms audit",
         "trusted_base": report.TRUSTED_BASE_COMMON + V.assumptions,
